@@ -8,10 +8,10 @@ package main
 import (
 	"bytes"
 	"encoding/json"
-	"os/exec"
 	"flag"
 	"fmt"
 	"os"
+	"os/exec"
 	"sort"
 	"strconv"
 	"strings"
